@@ -1018,7 +1018,9 @@ def coq_ok(coqdir, text):
             os.path.join(coqdir, 'Model', 'Digest.vo')]
     if not all(os.path.exists(p) for p in need) or shutil.which('coqc') is None:
         return None
-    d = tempfile.mkdtemp(prefix='py2coq', dir=os.path.join(coqdir, 'Gen'))
+    work = os.path.join(os.path.dirname(coqdir), '.work')      # git-ignored scratch area of the framework
+    os.makedirs(work, exist_ok=True)
+    d = tempfile.mkdtemp(prefix='py2coq', dir=work)
     try:
         open(os.path.join(d, 'Cand.v'), 'w').write(text)
         p = subprocess.run(['timeout', '120', 'coqc', '-Q', coqdir, 'MoPep', '-Q', d, 'Py2CoqCand', os.path.join(d, 'Cand.v')],
